@@ -43,6 +43,10 @@ def signed (t : Token) : Bytes := t.prev ++ t.chash ++ t.sig
 def id (C : Crypto) (t : Token) : Bytes := C.hash t.signed
 /-- verify(tree.public_key) -/
 def valid (C : Crypto) (t : Token) : Bool := C.vfy t.plain t.sig
+/-- both pointers are as long as the genesis hash (a SHA3-256 digest): the first test of gather_token -/
+def sized (g : Bytes) (t : Token) : Bool := t.prev.length == g.length && t.chash.length == g.length
+/-- what gather_token accepts to look at: digest-sized pointers and a signature of the tree key -/
+def ok (C : Crypto) (g : Bytes) (t : Token) : Bool := t.sized g && t.valid C
 /-- __eq__ -/
 def same (a b : Token) : Bool := a.signed == b.signed
 /-- everything but the attached content -/
@@ -137,7 +141,7 @@ theorem filter_split_length (p : Token → Bool) (l : List Token) :
 
 /--
   gather_token on every token of `stack`, depth first.  One step = one call of gather_token(r):
-    1. signature check fails                         -> None
+    1. a pointer is not digest sized, or the signature check fails   -> None
     2. parent neither genesis nor an element          -> stored in `unchained`, None
     3. own hash already an element                    -> content handed to the stored token, returns it
     4. `_append_chain_reaction_token`: append, take every waiting token that points to the new one out of
@@ -147,7 +151,7 @@ def drain (C : Crypto) (g : Bytes) (cap : Nat) (els unc stack : List Token) : Tr
   match stack with
   | [] => ⟨els, unc⟩
   | r :: rest =>
-    if !r.valid C then drain C g cap els unc rest
+    if !r.ok C g then drain C g cap els unc rest
     else if r.prev != g && !hasId C els r.prev then drain C g cap els (uncAdd cap unc r) rest
     else if hasId C els (r.id C) then drain C g cap (absorb C els r) unc rest
     else
@@ -182,7 +186,7 @@ def Kind.isSome : Kind → Bool
   | _ => true
 
 def gatherKind (C : Crypto) (g : Bytes) (tr : Tree) (t : Token) : Kind :=
-  if !t.valid C then .invalid
+  if !t.ok C g then .invalid
   else if t.prev != g && !hasId C tr.els t.prev then .orphan
   else if hasId C tr.els (t.id C) then .shadow
   else .added
